@@ -1174,18 +1174,38 @@ func (m *StateMachine) recordPrevote(
 			Height: h, Round: r,
 			BlockHash: targetHash,
 		}
-		signContent, sig, err := m.signer.Prevote(ctx, vt)
+		// If the process restarted within this round,
+		// the prevote for the round may already be recorded.
+		// Never sign a second one: send the recorded vote again instead.
+		ra, err := m.recordedActions(ctx, h, r)
 		if err != nil {
-			glog.HRE(m.log, h, r, err).Error(
-				"Failed to sign prevote",
-				"target_hash", glog.Hex(targetHash),
-			)
 			return false
 		}
 
-		if err := m.aStore.SavePrevoteAction(ctx, m.signer.PubKey(), vt, sig); err != nil {
-			glog.HRE(m.log, h, r, err).Error("Failed to save prevote to action store")
-			return false
+		var signContent, sig []byte
+		if ra.PrevoteSignature != "" {
+			targetHash = ra.PrevoteTarget
+			vt.BlockHash = targetHash
+			sig = []byte(ra.PrevoteSignature)
+			signContent, err = tmconsensus.PrevoteSignBytes(vt, m.finalizer.SigScheme)
+			if err != nil {
+				glog.HRE(m.log, h, r, err).Error("Failed to build sign bytes for recorded prevote")
+				return false
+			}
+		} else {
+			signContent, sig, err = m.signer.Prevote(ctx, vt)
+			if err != nil {
+				glog.HRE(m.log, h, r, err).Error(
+					"Failed to sign prevote",
+					"target_hash", glog.Hex(targetHash),
+				)
+				return false
+			}
+
+			if err := m.aStore.SavePrevoteAction(ctx, m.signer.PubKey(), vt, sig); err != nil {
+				glog.HRE(m.log, h, r, err).Error("Failed to save prevote to action store")
+				return false
+			}
 		}
 
 		// The OutgoingActionsCh is 3-buffered so we assume this will never block.
@@ -1269,18 +1289,37 @@ func (m *StateMachine) recordPrecommit(
 		Height: h, Round: r,
 		BlockHash: targetHash,
 	}
-	signContent, sig, err := m.signer.Precommit(ctx, vt)
+	// As in recordPrevote: a precommit already recorded for this round
+	// (before a restart) is sent again, never replaced by a new signature.
+	ra, err := m.recordedActions(ctx, h, r)
 	if err != nil {
-		glog.HRE(m.log, h, r, err).Error(
-			"Failed to sign precommit content",
-			"target_hash", glog.Hex(targetHash),
-		)
 		return false
 	}
 
-	if err := m.aStore.SavePrecommitAction(ctx, m.signer.PubKey(), vt, sig); err != nil {
-		glog.HRE(m.log, h, r, err).Error("Failed to save precommit to action store")
-		return false
+	var signContent, sig []byte
+	if ra.PrecommitSignature != "" {
+		targetHash = ra.PrecommitTarget
+		vt.BlockHash = targetHash
+		sig = []byte(ra.PrecommitSignature)
+		signContent, err = tmconsensus.PrecommitSignBytes(vt, m.finalizer.SigScheme)
+		if err != nil {
+			glog.HRE(m.log, h, r, err).Error("Failed to build sign bytes for recorded precommit")
+			return false
+		}
+	} else {
+		signContent, sig, err = m.signer.Precommit(ctx, vt)
+		if err != nil {
+			glog.HRE(m.log, h, r, err).Error(
+				"Failed to sign precommit content",
+				"target_hash", glog.Hex(targetHash),
+			)
+			return false
+		}
+
+		if err := m.aStore.SavePrecommitAction(ctx, m.signer.PubKey(), vt, sig); err != nil {
+			glog.HRE(m.log, h, r, err).Error("Failed to save precommit to action store")
+			return false
+		}
 	}
 
 	// The OutgoingActionsCh is 3-buffered so we assume this will never block.
@@ -1293,6 +1332,32 @@ func (m *StateMachine) recordPrecommit(
 	}
 
 	return true
+}
+
+// recordedActions loads the actions already recorded for the given round.
+// A round without any recorded action is not an error.
+// Actions recorded under a different key are never sent again.
+func (m *StateMachine) recordedActions(
+	ctx context.Context, h uint64, r uint32,
+) (tmstore.RoundActions, error) {
+	ra, err := m.aStore.LoadActions(ctx, h, r)
+	if err != nil {
+		if errors.As(err, new(tmconsensus.RoundUnknownError)) {
+			return tmstore.RoundActions{}, nil
+		}
+		glog.HRE(m.log, h, r, err).Error("Failed to load recorded actions")
+		return ra, err
+	}
+	if ra.PubKey != nil && !ra.PubKey.Equal(m.signer.PubKey()) {
+		err := tmstore.PubKeyChangedError{
+			ActionType: "vote",
+			Want:       string(ra.PubKey.PubKeyBytes()),
+			Got:        string(m.signer.PubKey().PubKeyBytes()),
+		}
+		glog.HRE(m.log, h, r, err).Error("Recorded actions of this round belong to another key")
+		return ra, err
+	}
+	return ra, nil
 }
 
 func (m *StateMachine) handleCommitWaitViewUpdate(
